@@ -54,6 +54,8 @@ Sites(k) ==
                             [site |-> "links", kind |-> "links"], [site |-> "content.examples", kind |-> "examples"]}
      [] k = "callbacks" -> {[site |-> "post.requestBody", kind |-> "requestBodies"], [site |-> "post.responses", kind |-> "responses"],
                             [site |-> "parameters", kind |-> "parameters"]}
+     [] k = "pathItems" -> {[site |-> "parameters", kind |-> "parameters"], [site |-> "post.requestBody", kind |-> "requestBodies"],
+                            [site |-> "post.responses", kind |-> "responses"]}
      [] OTHER -> {}
 
 OtherKind(k) == IF k = "schemas" THEN "parameters" ELSE "schemas"
@@ -149,6 +151,30 @@ Shapes(k, st) ==
       : s \in {x \in Sites(k) : x.site \in {"properties", "items", "allOf"}}}
     ELSE {})
 
+(* Path items: not a component kind (OpenAPI 3.0 has no components.pathItems) but referenceable:   *)
+(* a path of the root document is {"$ref": ...} to a whole file holding a bare path item or to      *)
+(* "#/paths/~1<name>" of another document.  Slot kind "pathItems", name = the path without "/".     *)
+PI == "pathItems"
+PathItemShapes(st) ==
+   {[shape |-> "pi_direct", u |-> U(<<Slot(A1, PI, "x", Conc("X", <<>>))>>, R(Root, A1, PI, "x", st), PI)],
+    [shape |-> "pi_wholefile_plain", u |-> U(<<Slot(W1, PI, "", Conc("W", <<>>))>>, RW(Root, W1, st), PI)],
+    [shape |-> "pi_dangling", u |-> U(<<Slot(A1, PI, "x", Conc("X", <<>>))>>, R(Root, A1, PI, "missing", st), PI)],
+    [shape |-> "pi_danglingfile", u |-> U(<<Slot(A1, PI, "x", Conc("X", <<>>))>>, RW(Root, C1, st), PI)]}
+   \cup UNION {
+     {[shape |-> "pi_wholefile", site |-> s.site,
+       u |-> U(<<Slot(W1, PI, "", Conc("W", <<Ch(s.site, s.kind, R(W1, A1, s.kind, "Y", st))>>)), Slot(A1, s.kind, "Y", Conc("Y", <<>>))>>,
+               RW(Root, W1, st), PI)],
+      [shape |-> "pi_child", site |-> s.site,
+       u |-> U(<<Slot(A1, PI, "x", Conc("X", <<Ch(s.site, s.kind, R(A1, B1, s.kind, "Y", st))>>)), Slot(B1, s.kind, "Y", Conc("Y", <<>>))>>,
+               R(Root, A1, PI, "x", st), PI)],
+      [shape |-> "pi_childlocal", site |-> s.site,
+       u |-> U(<<Slot(B1, PI, "x", Conc("X", <<Ch(s.site, s.kind, R(B1, B1, s.kind, "Y", st))>>)), Slot(B1, s.kind, "Y", Conc("Y", <<>>))>>,
+               R(Root, B1, PI, "x", st), PI)],
+      [shape |-> "pi_backref", site |-> s.site,
+       u |-> U(<<Slot(A1, PI, "x", Conc("X", <<Ch(s.site, s.kind, R(A1, Root, s.kind, "Y", st))>>)), Slot(Root, s.kind, "Y", Conc("RootY", <<>>))>>,
+               R(Root, A1, PI, "x", st), PI)]}
+     : s \in Sites(PI)}
+
 (* file_rel_default: relative LoadFromFile through the library's default (caching) reader; the   *)
 (* universes of a run are loaded one after the other in one process, each from its own directory  *)
 (* uri_remote: LoadFromURI of https://root.example/r/openapi.json; the reader serves that host     *)
@@ -161,14 +187,15 @@ QuickSlice(sh, st, e, pos) ==
    \/ sh.shape = "otherhost_samepath"
    \/ (sh.shape = "deepfragment" /\ e \in {"file_abs", "file_rel"})
    \/ (sh.shape \in {"child", "chain3", "diamond"} /\ e = "file_abs" /\ pos = "op")
-   \/ (sh.shape \in {"direct", "child"} /\ st = "plain" /\ pos = "op")
+   \/ (sh.shape \in {"direct", "child", "pi_direct", "pi_wholefile", "pi_child"} /\ st = "plain" /\ pos = "op")
    \/ (sh.shape \in {"direct", "chain3", "wholefile"} /\ e = "file_rel_default" /\ pos = "op")
    \/ (sh.shape \in {"direct", "chain3", "wholefile", "child", "backref"} /\ e = "uri_remote" /\ st \in {"plain", "updown"} /\ pos = "op")
 
 CONSTANT Allows      \* settings of IsExternalRefsAllowed to generate
 VARIABLE case
-Init == \E k \in Kinds, st \in Styles, e \in Entries, pos \in {"op", "comp"}, al \in Allows :
-          \E sh \in Shapes(k, st) :
+Init == \E k \in Kinds \cup {PI}, st \in Styles, e \in Entries, pos \in {"op", "comp"}, al \in Allows :
+          \E sh \in (IF k = PI THEN PathItemShapes(st) ELSE Shapes(k, st)) :
+             /\ (k = PI => pos = "op")
              /\ (Tier = "quick" => QuickSlice(sh, st, e, pos))
              /\ (e = "uri_remote" => st \in RelStyles)
              /\ (k = "securitySchemes" => pos = "comp")        \* security schemes are referenced by name, not by $ref
